@@ -12,6 +12,7 @@ import (
 	"sort"
 	"strings"
 	"sync"
+	"sync/atomic"
 	"syscall"
 	"testing"
 	"time"
@@ -19,6 +20,7 @@ import (
 	"github.com/go-kit/log"
 	"go.universe.tf/metallb/internal/bgp"
 	"go.universe.tf/metallb/internal/bgp/community"
+	"golang.org/x/sys/unix"
 )
 
 // C17 — native BGP session convergence. A scripted BGP peer (own RFC 4271 decoder) listens on
@@ -139,6 +141,7 @@ type c17Peer struct {
 	lastFault     time.Time
 	closeReturned bool
 	closeAt       time.Time
+	closedFlag    atomic.Bool // set together with closeReturned, readable without mu
 	finishing     bool
 	unjudged      string
 	fired         map[string]bool
@@ -176,6 +179,24 @@ func (p *c17Peer) violation(sig, summary string) {
 func (p *c17Peer) starvedGap() time.Duration {
 	time.Sleep(40 * time.Millisecond)
 	return p.canary.MaxGap()
+}
+
+// vfc17KernelEventAge: how long ago the kernel saw the last event on this socket that moves its
+// "last data received" stamp (arrival of a data segment; for an accepted socket also its creation).
+// Used to date arrivals independently of when the reading goroutine got to run.
+func vfc17KernelEventAge(tc *net.TCPConn) (time.Duration, bool) {
+	rc, err := tc.SyscallConn()
+	if err != nil {
+		return 0, false
+	}
+	var age time.Duration
+	ok := false
+	_ = rc.Control(func(fd uintptr) {
+		if ti, err := unix.GetsockoptTCPInfo(int(fd), unix.IPPROTO_TCP, unix.TCP_INFO); err == nil {
+			age, ok = time.Duration(ti.Last_data_recv)*time.Millisecond, true
+		}
+	})
+	return age, ok
 }
 
 // timed reports a violation that rests on a wall-clock deadline, unless the process was starved.
@@ -363,6 +384,11 @@ func (p *c17Peer) acceptLoop() {
 		}
 		now := time.Now()
 		tc := nc.(*net.TCPConn)
+		if p.closedFlag.Load() { // date the connection by the kernel's clock, not by when Accept got to run
+			if age, ok := vfc17KernelEventAge(tc); ok {
+				now = now.Add(-age)
+			}
+		}
 		p.mu.Lock()
 		if p.finishing {
 			p.mu.Unlock()
@@ -385,7 +411,7 @@ func (p *c17Peer) acceptLoop() {
 		p.mu.Unlock()
 		p.c.Count("connections")
 		if lateBy > c17CloseGrace {
-			p.timed("close:connection-after-close", fmt.Sprintf("a connection was accepted %s after Close() returned", lateBy))
+			p.timed("close:connection-after-close", fmt.Sprintf("a connection was established %s after Close() returned", lateBy))
 		}
 		go p.serve(cn)
 	}
@@ -605,6 +631,11 @@ func (p *c17Peer) serve(cn *c17Conn) {
 // onMessage interprets one message of an established connection.
 func (p *c17Peer) onMessage(cn *c17Conn, raw []byte, wasStalled bool) bool {
 	now := time.Now()
+	if p.closedFlag.Load() { // date the message by its arrival in the kernel, not by when this goroutine read it
+		if age, ok := vfc17KernelEventAge(cn.tc); ok {
+			now = now.Add(-age)
+		}
+	}
 	m, err := vfBGPDecode(raw, p.sc.PeerAS4)
 	p.c.Eval()
 	if err != nil {
@@ -1042,6 +1073,7 @@ func vfc17RunScenario(c *vfCase, sc *c17Scenario) {
 	now := time.Now()
 	p.mu.Lock()
 	p.closeReturned, p.closeAt = true, now
+	p.closedFlag.Store(true)
 	p.seq++
 	p.mu.Unlock()
 	time.Sleep(c17CloseWindow)
